@@ -257,6 +257,10 @@ def build():
                                      'explorer (Engine X), bounded-exhaustive input enumerators (Engine E)')],
         checks=checks,
         notes='All checks import goodwe from /repo\'s working tree at run time (nothing is installed or cached). '
+              'Besides its own exploration every protocol check (C04-C10) runs the session explorer mc/sessions.py '
+              '(histories of requests on one object under the full fault alphabet) and every API-level check (C15-C19) '
+              'the API session explorer mc/api_sessions.py (BFS over histories of public calls and device changes, '
+              'then probes); module/class level state of goodwe is restored between explored executions. '
               'VERIF_SEED rotates enumeration order / embedding contexts only; alphabets, bounds and oracles do not '
               'depend on it.  Known findings: /verif/KNOWN_FINDINGS.txt.',
         not_applicable=na)
